@@ -329,7 +329,7 @@ def conserving_mech(r, ns):
         plist = list(zip(prods, yl))
         if r.chance(0.3):
             # a third body returned unchanged (parameterized species on both sides): not part of the balance
-            reactants = reactants + [PARAM0]
+            reactants = list(reactants); reactants.insert(r.below(len(reactants) + 1), PARAM0)   # anywhere in the list
             plist.insert(r.below(len(plist) + 1), (PARAM0, 1.0))
         rx.append((reactants, plist))
     return rx, w
@@ -687,6 +687,181 @@ def oracle_be_unconverged_linear(c, out):
                         f"backward-Euler solution at final_time_: species {i} is {got[i]!r}, (I - H A)^-1 y0 gives {exact[i]!r} (y0={m['y'][cidx*ns+i]!r})")
     return None
 
+def decode_ros_full(pt):
+    """all fields of the Rosenbrock parameter tokens (see Driver.rosParamsP)"""
+    st = int(pt[0]); nt = st * (st - 1) // 2
+    q = 1
+    a = [unhex(x) for x in pt[q:q + nt]]; q += nt
+    c = [unhex(x) for x in pt[q:q + nt]]; q += nt
+    m = [unhex(x) for x in pt[q:q + st]]; q += st
+    e = [unhex(x) for x in pt[q:q + st]]; q += st
+    gamma = unhex(pt[q]); q += 1
+    newf = [x != "0" for x in pt[q:q + st]]; q += st
+    d = decode_ros_ptoks(pt)
+    d.update(a=a, c=c, m=m, e=e, newf=newf)
+    return d
+
+def exact_forcing(rx, kq, y):
+    """mass-action forcing of one cell in exact arithmetic; species in declaration order, parameterized species skipped"""
+    f = [F(0)] * len(y)
+    for q, (reactants, products) in enumerate(rx):
+        rate = kq[q]
+        for x in reactants:
+            if x < PARAM0: rate = rate * y[x]
+        for x in reactants:
+            if x < PARAM0: f[x] -= rate
+        for (pid, yl) in products:
+            if pid < PARAM0: f[pid] += F(yl) * rate
+    return f
+
+def exact_jacobian(rx, kq, y):
+    n = len(y)
+    J = [[F(0)] * n for _ in range(n)]
+    for q, (reactants, products) in enumerate(rx):
+        rs = [x for x in reactants if x < PARAM0]
+        for j in set(rs):
+            d = kq[q] * rs.count(j)
+            rest = list(rs); rest.remove(j)
+            for x in rest: d = d * y[x]
+            for x in rs: J[x][j] -= d
+            for (pid, yl) in products:
+                if pid < PARAM0: J[pid][j] += F(yl) * d
+    return J
+
+def exact_solve(M, cols):
+    """solve M X = cols (list of right-hand sides) by Gauss-Jordan with pivot search, exact; None if singular"""
+    n = len(M)
+    A = [list(M[i]) + [c[i] for c in cols] for i in range(n)]
+    for col in range(n):
+        piv = next((r_ for r_ in range(col, n) if A[r_][col] != 0), None)
+        if piv is None: return None
+        A[col], A[piv] = A[piv], A[col]
+        inv = 1 / A[col][col]
+        A[col] = [x * inv for x in A[col]]
+        for r_ in range(n):
+            if r_ != col and A[r_][col] != 0:
+                f = A[r_][col]
+                A[r_] = [x - f * y for x, y in zip(A[r_], A[col])]
+    return [[A[i][n + k] for i in range(n)] for k in range(len(cols))]
+
+def rnd200(x):
+    """round a Fraction to about 200 significant bits (keeps the exact-arithmetic oracle fast; 2^-200 is far below anything compared)"""
+    if x == 0: return x
+    e = abs(x.numerator).bit_length() - x.denominator.bit_length()
+    sh = 200 - e
+    if sh >= 0: return F((x.numerator << sh) // x.denominator, 1 << sh)
+    return F((x.numerator // x.denominator >> (-sh)) << (-sh))
+
+def exact_forcing_mag(rx, kq, y):
+    """sum of the magnitudes of the terms of each forcing component (rounding envelope of its evaluation)"""
+    g = [F(0)] * len(y)
+    for q, (reactants, products) in enumerate(rx):
+        rate = abs(kq[q])
+        for x in reactants:
+            if x < PARAM0: rate = rate * abs(y[x])
+        for x in reactants:
+            if x < PARAM0: g[x] += rate
+        for (pid, yl) in products:
+            if pid < PARAM0: g[pid] += abs(F(yl)) * rate
+    return max(g + [F(0)])
+
+def oracle_ros_step_formulas(c, out):
+    """Every attempt made BEFORE the first accepted step of a Rosenbrock solve starts from the initial state y0, so its
+    error norm is a function of (y0, H, mechanism, coefficient set) alone.  The s-stage formulas are evaluated in
+    (200-bit) rational arithmetic -- matrix I/(gamma H) - J(y0), stage right-hand sides with the c/H terms and the
+    re-used or re-evaluated forcing, new state, error estimate, RMS norm -- and the error norm the implementation
+    reported for the attempt (first try and every retry) must agree with it inside a first-order rounding bound
+    (forcing evaluation, c/H accumulation, backward error of the un-pivoted LU solve, e-weighted sum; max-norms)."""
+    m = c.meta
+    if m.get("integ") != 0 or out is None or not out.startswith("solve "):
+        return None
+    att = parse_att(out); s = parse_solve(out)
+    if not att or s is None:
+        return None
+    vals = list(m["k"]) + list(m["y"]) + list(m["atol"]) + [m["rtol"]]
+    if any(v != v or abs(v) == float("inf") for v in vals):
+        return None
+    P = decode_ros_full(m["ptoks"]); st = P["stages"]; inplace = m["kind"] >= 2
+    ns, ncell, rx = m["ns"], m["ncell"], m["rx"]; nrx = len(rx)
+    if ns > 5 or ncell > 7:
+        return None
+    U = F(8, 2 ** 53)
+    total = F(0); checked = 0
+    for i, (alpha, err) in enumerate(att[:4]):
+        if err is None or alpha != alpha or abs(alpha) == float("inf") or err != err or abs(err) == float("inf"):
+            return None
+        total = F(alpha) if inplace else total + F(alpha)
+        if total <= 0:
+            return None
+        H = 1 / (total * F(P["gamma"]))
+        sumsq = F(0); bound2 = F(0); skip = False
+        for cell in range(ncell):
+            kq = [F(v) for v in m["k"][cell * nrx:(cell + 1) * nrx]]
+            y0 = [F(v) for v in m["y"][cell * ns:(cell + 1) * ns]]
+            J = exact_jacobian(rx, kq, y0)
+            M = [[(total if a_ == b_ else F(0)) - J[a_][b_] for b_ in range(ns)] for a_ in range(ns)]
+            ident = [[F(1) if a_ == b_ else F(0) for a_ in range(ns)] for b_ in range(ns)]
+            inv = exact_solve(M, ident)
+            if inv is None: skip = True; break
+            nM = max(sum(abs(x) for x in row) for row in M)
+            nInv = max(sum(abs(inv[b_][a_]) for b_ in range(ns)) for a_ in range(ns))   # inv holds columns
+            K = []; dK = []; Fprev = None; dFprev = None
+            for stage in range(st):
+                sc_ = stage * (stage - 1) // 2
+                if stage == 0:
+                    Fs = exact_forcing(rx, kq, y0); dF = U * exact_forcing_mag(rx, kq, y0)
+                elif P["newf"][stage]:
+                    ys = list(y0); dys = F(0)
+                    for j in range(stage):
+                        ys = [u + F(P["a"][sc_ + j]) * v for u, v in zip(ys, K[j])]
+                        dys += abs(F(P["a"][sc_ + j])) * dK[j] + U * abs(F(P["a"][sc_ + j])) * max(abs(v) for v in K[j])
+                    Fs = exact_forcing(rx, kq, ys)
+                    # |f(ys + d) - f(ys)| <= ||J(|ys|)|| * d to first order
+                    Ja = exact_jacobian(rx, [abs(x) for x in kq], [abs(x) for x in ys])
+                    nJ = max(sum(abs(x) for x in row) for row in Ja) if ns else F(0)
+                    dF = U * exact_forcing_mag(rx, kq, ys) + nJ * dys
+                else:
+                    Fs = Fprev; dF = dFprev
+                Fprev = Fs; dFprev = dF
+                rhs = list(Fs); drhs = dF
+                for j in range(stage):
+                    cf = F(P["c"][sc_ + j]) / H
+                    rhs = [u + cf * v for u, v in zip(rhs, K[j])]
+                    drhs += abs(cf) * dK[j] + 3 * U * abs(cf) * max(abs(v) for v in K[j])
+                Ki = [rnd200(x) for x in exact_solve(M, [rhs])[0]]
+                K.append(Ki)
+                dK.append(nInv * (drhs + ns * U * nM * max(abs(v) for v in Ki)))
+            ynew = list(y0); yerr = [F(0)] * ns; dyerr = F(0)
+            for i_ in range(st):
+                ynew = [u + F(P["m"][i_]) * v for u, v in zip(ynew, K[i_])]
+                yerr = [u + F(P["e"][i_]) * v for u, v in zip(yerr, K[i_])]
+                dyerr += abs(F(P["e"][i_])) * (dK[i_] + st * U * max(abs(v) for v in K[i_]))
+            for v in range(ns):
+                scale = F(m["atol"][v]) + F(m["rtol"]) * max(abs(y0[v]), abs(ynew[v]))
+                if scale <= 0: skip = True; break
+                sumsq += (yerr[v] / scale) ** 2
+                bound2 += (dyerr / scale) ** 2
+            if skip: break
+        if skip:
+            return None
+        N = ncell * ns
+        raw = math.sqrt(float(sumsq / N))
+        exact = max(raw, 1e-10)
+        tol = math.sqrt(float(bound2 / N)) + 1e-9 * exact
+        if tol > 1e-2 * exact:
+            c.tags.append("step_formula_inconclusive")
+        elif abs(err - exact) > tol:
+            return (f"attempt #{i + 1} of the first step (H={float(H)!r}, {'first try' if i == 0 else 'retry after %d rejection(s)' % i}): the reported error norm is "
+                    f"{err!r}, the {st}-stage Rosenbrock formulas applied to (y0, H) give {exact!r} (rounding bound {tol:.2e}); lu kind {m['kind']}")
+        else:
+            checked += 1
+        # did this attempt get accepted?  then later attempts start elsewhere
+        if err < 1 or float(H) < P["h_min"]:
+            break
+    if checked: c.tags.append("step_formula_checked")
+    if checked >= 2: c.tags.append("step_formula_retry_checked")
+    return None
+
 def oracle_trace_pair_marker(c, out):
     s = parse_solve(out) if out else None
     if s is None:
@@ -695,7 +870,7 @@ def oracle_trace_pair_marker(c, out):
     rej_total = st["steps"] - st["acc"]
     if rej_total >= 2: c.tags.append("attempts_not_accepted>=2")
     if rej_total >= 3: c.tags.append("attempts_not_accepted>=3")
-    return None
+    return oracle_ros_step_formulas(c, out)
 
 def g_c06(r, tier, env, Ls):
     n = 200 if tier == "quick" else 4000
